@@ -126,6 +126,18 @@ PROPS = {
         'assumptions': ['one shared non-decreasing clock', 'metadata store = C13'],
         'trusted': ['modelled, not verified: wall-clock time, JSON of lease records'],
     },
+    'C11': {
+        'level_text': "Lean theorems: the array heap of util/heap transcribed operation by operation — Push, Pop, New keep heap order and permute the slice, Pop removes exactly the root, the root is a minimum (sift-up / sift-down invariants by well-founded induction); on top of it the event loop of the notification queue: for every sequence of adds (any revisions, tables), notifications, cancellations / deadlines and sweeps the loop never blocks or panics, every queued waiter has an untouched channel, Len = unanswered waiters (QInv, c11_never_blocks); a notification answers exactly the waiters it removes, once each, touches no other channel and leaves only revisions above the notified one; the sweep answers every expired waiter once and keeps every live one (D5 regression); the apply side tells the listener exactly the committed leader index (D11 / C11-b). K5 (notification before the add) is proved as a witness. Tied to the code by real-time scripts against the real queue (half of the waiters through the real ForwardingKVServer.Put/DeleteRange/Txn), by comparing util/heap's backing slice after every operation, and by the fsm runs which record what a reader sees at each notification.",
+        'level_note': "Trusted: Lean kernel, harness. Go channel semantics as modelled (capacity-1 buffer, close, blocking send); the one-second sweep runs in real time in the correspondence run (scripts whose timing slipped are discarded and re-run, never judged). Known finding K5: a waiter added after its notification is only answered at its deadline.",
+        'modules': ['Regatta.Props.C11'],
+        'runs': [{'name': 'queue', 'harness': 'queue', 'driver': 'queue', 'quick': {'VERIF_N': 300}, 'thorough': {'VERIF_N': 6000}, 'timeout': 3000},
+                 {'name': 'heap', 'harness': 'heap', 'driver': 'heap', 'quick': {'VERIF_N': 2000}, 'thorough': {'VERIF_N': 100000}},
+                 {'name': 'fsm', 'harness': 'fsm', 'driver': 'fsm', 'quick': {'VERIF_N': 150}, 'thorough': {'VERIF_N': 5000}},
+                 {'name': 'fsm-twin', 'harness': 'fsm-twin', 'driver': 'fsm', 'quick': {'VERIF_N': 100}, 'thorough': {'VERIF_N': 3000}}],
+        'rule': 'queue: 10-25 event scripts and dense scripts (6-14 waiters on one table in random revision order, 1-3 cancelled, sweeps and stepped notifications with every channel inspected in between) against the real queue in real time, 150 scripts concurrently, two final sweeps; heap: random Push/Pop/Remove/Fix/New sequences; fsm: notified value and the index visible to a reader at notification time for every Update / Open',
+        'assumptions': ['Go channel and select semantics', 'every Add creates a fresh channel (waiter identity)'],
+        'trusted': ['modelled, not verified: Go runtime scheduler, time.Ticker'],
+    },
 }
 
 NOT_YET = {}
